@@ -87,6 +87,30 @@ def reap_children(grace=0.0):
             break
 
 
+def diag_process(pid, timeout=25):
+    """Best-effort diagnosis of a process that should not be alive any more:
+    kernel wait channel + Python stack via gdb (hang diagnostics only)."""
+    import subprocess
+    out = {'pid': pid}
+    for f in ('wchan', 'cmdline'):
+        try:
+            out[f] = open(f'/proc/{pid}/{f}', 'rb').read().replace(b'\0', b' ').decode('utf-8', 'replace')[:200]
+        except OSError as ex:
+            out[f] = repr(ex)
+    try:
+        out['state'] = [ln for ln in open(f'/proc/{pid}/status').read().splitlines() if ln.startswith(('State', 'PPid', 'Threads'))]
+    except OSError as ex:
+        out['state'] = repr(ex)
+    try:
+        r = subprocess.run(['gdb', '-p', str(pid), '-batch', '-iex', 'set auto-load safe-path /', '-ex',
+                            'thread apply all py-bt'], capture_output=True, timeout=timeout, text=True,
+                           stdin=subprocess.DEVNULL)
+        out['py_bt'] = r.stdout[-2500:]
+    except Exception as ex:   # noqa
+        out['py_bt'] = repr(ex)
+    return out
+
+
 def make_backend(kind, sched_seed=0, deaths=(), batch_bias=0.5):
     from labtech.runners import ForkRunnerBackend, SerialRunnerBackend, SpawnRunnerBackend
     if kind == 'sim':
